@@ -48,6 +48,8 @@ func init() {
 	Plans["C07"].Race = true
 	Plans["C09"].Cost = true
 	Plans["C09"].Prefixes = append(Plans["C09"].Prefixes, "H_C03_lexer")
+	Plans["C04"].Prefixes = append(Plans["C04"].Prefixes, "H_C03_escapes")
+	Plans["C11"].Prefixes = append(Plans["C11"].Prefixes, "H_C12_string")
 }
 
 type KnownFinding struct {
